@@ -89,6 +89,26 @@ MustProduceN(c, srcOk, srcN) ==
                               /\ (c.w * Sr(c)) \div c.tden <= srcN
 
 (***************************************************************************)
+(* The integer arithmetic of the implementation (resample,                 *)
+(* compute_spectrogram + scipy.signal.stft), shared by the Impl machine    *)
+(* (MC_AudioAxis) and by the Drift clauses below.  srcN = frames of the    *)
+(* source array.                                                           *)
+(***************************************************************************)
+ImplNum(c, srcN) == (srcN * c.target) \div Sr(c)                 \* int(times.size * target_samplerate * step)
+ImplNp0(c)       == (c.w * Sr(c)) \div c.tden                    \* int(window_size * samplerate)
+ImplNov(c)       == ((c.w - c.h) * Sr(c)) \div c.tden            \* int((window_size - hop_size) * samplerate), hop <= window
+ImplNp(c, srcN)  == Min(ImplNp0(c), srcN)                        \* scipy _triage_segments: nperseg <= input length
+ImplSpecRaises(c, srcN) == ImplNp0(c) < 1 \/ ImplNov(c) >= ImplNp(c, srcN)
+\* zero extension by nperseg/2 on both sides, zero padding to a whole number of hops, one frame per hop
+ImplFrames(c, srcN) ==
+    LET np  == ImplNp(c, srcN)
+        hop == np - ImplNov(c)
+        L0  == srcN + 2 * (np \div 2)
+        L   == L0 + (((0 - (L0 - np)) % hop) % np)
+    IN  (L - np) \div hop + 1
+ImplBins(c, srcN) == ImplNp(c, srcN) \div 2 + 1                  \* rfftfreq(nperseg)
+
+(***************************************************************************)
 (* Limb numbers (doubles observed from the implementation, see Lattice).   *)
 (***************************************************************************)
 LMagLt(a, b) == LMagLe(a, b) /\ ~LMagEq(a, b)
@@ -150,10 +170,13 @@ ClipTimesAt(o, off) ==
 ClipSameAt(o, off) ==
     \A i \in 1..Len(o.out.rows) : off + i <= Len(o.out.rec_rows) => o.out.rows[i] = o.out.rec_rows[off + i]
 
+\* "Drift/..." clauses compare the code with the Impl transcription on exact units; the engine reports them as
+\* MODEL-DRIFT (the spec's Impl must be re-transcribed), never as a violation of the property
+DriftClauses == {"Drift/SpecShape", "Drift/ResampleNum"}
 Clauses == {"Produced",
             "ClipLength", "ClipFrames", "ClipTimes", "ClipSameAsRecording", "ClipConsistent",
             "TimeIncreasing", "TimeStart", "TimeWithinStep",
-            "FreqIncreasing", "FreqStart", "FreqWithinStep"}
+            "FreqIncreasing", "FreqStart", "FreqWithinStep"} \cup DriftClauses
 
 Holds(cl, o) ==
     LET c == o.in  r == o.out
@@ -176,4 +199,11 @@ Holds(cl, o) ==
       [] cl = "FreqIncreasing" -> hasf => AxisIncreasing(r.axes[2])
       [] cl = "FreqWithinStep" -> hasf => AxisWithin(r.axes[2])
       [] cl = "FreqStart"      -> hasf => StartsAtZero(r.axes[2])
+      [] cl = "Drift/SpecShape" ->
+            (c.kind = "spec" /\ Exact(c) /\ r.src_ok /\ r.src_n >= 1 /\ c.h <= c.w) =>
+               IF ImplSpecRaises(c, r.src_n) THEN ~ok
+               ELSE ok /\ Len(r.axes) = 2 /\ r.axes[1].n = ImplFrames(c, r.src_n) /\ r.axes[2].n = ImplBins(c, r.src_n)
+      [] cl = "Drift/ResampleNum" ->
+            (c.kind = "resamp" /\ ExactCo(c) /\ r.src_ok /\ r.src_n >= 2) =>
+               IF ImplNum(c, r.src_n) < 1 THEN ~ok ELSE ok /\ r.n = ImplNum(c, r.src_n)
 =============================================================================
